@@ -41,5 +41,6 @@ m = {
     "not_applicable": [{"property_id": p["id"], "reason": NOT_APPLICABLE.get(p["id"], "not yet claimed: model and proofs under construction (plan in DESIGN.md §5 %s); Lean proof applies in principle" % p["id"])}
                        for p in props if p["id"] not in CONFIG],
 }
+assert len(checks) == 20 and not m["not_applicable"], "a property lost its configuration entry: %s" % sorted(CONFIG)
 json.dump(m, open(os.path.join(ROOT, "MANIFEST.json"), "w"), indent=1)
 print("claimed:", sorted(CONFIG))
